@@ -13,6 +13,7 @@ import os
 import re
 import tomllib
 
+from ..flow import arg_origins
 from ..mir import CallSite, op_local
 from ..panics import sources_in
 
@@ -43,7 +44,14 @@ def check(ctx):
     R3 = ctx.rule("R3", "the accept loop is left only when the listener iterator returns None")
     R4 = ctx.rule("R4", "SslAcceptor::accept is called only inside the spawned per-connection closure")
 
-    nexts = [c for c in start.calls_to("core::iter::traits::iterator::Iterator::next") if c.res and "Incoming" in c.res]
+    # accept loops: Iterator::next on a listener's Incoming — recognised by the resolved iterator type or, when the loop lives in a
+    # generic helper (inlined here, its calls unresolved), by the provenance of the iterator: a `listener.incoming()` call
+    def over_incoming(c):
+        if c.res and "Incoming" in c.res:
+            return True
+        sl = arg_origins(c, 0)
+        return any((x.name or "").endswith("Listener::incoming") for x in sl.calls) or any(v.endswith("Listener::incoming") for v in sl.via)
+    nexts = [c for c in start.calls_to("core::iter::traits::iterator::Iterator::next") if over_incoming(c)]
     ctx.floor(R3, "accept loops (Iterator::next on a listener's Incoming) in %s" % START, len(nexts), 2)
     spawn_closures = []
     for nx in nexts:
@@ -62,6 +70,8 @@ def check(ctx):
         for u in scc:
             for v in start.succ[u]:
                 if v not in sccset and u not in disc_blocks:
+                    if start.term(v)["t"] == "unreachable":
+                        continue        # the `otherwise` of an exhaustive match: not an exit
                     bad.append((u, v))
         if bad:
             u, v = bad[0]
